@@ -25,7 +25,7 @@ except ImportError:
         yaml = None
 
 from . import __version__ as VERSION
-from .dynamic_typing import ModelMeta, register_datetime_classes, registry
+from .dynamic_typing import ModelMeta, StringSerializableRegistry, register_datetime_classes, registry
 from .generator import MetadataGenerator
 from .models import ModelsStructureType
 from .models.attr import AttrsModelCodeGenerator
@@ -105,23 +105,28 @@ class Cli:
         preamble: str = namespace.preamble
 
         self.disable_str_serializable_types = namespace.disable_str_serializable_types
-        self._disable_str_serializable_types()
 
         self.setup_models_data(namespace.model or (), namespace.list or (), parser)
         self.validate(merge_policy, framework, code_generator)
         self.set_args(merge_policy, structure, framework, code_generator, code_generator_kwargs_raw,
                       dict_keys_regex, dict_keys_fields, disable_unicode_conversion, preamble)
 
-    def _disable_str_serializable_types(self):
+    def _str_types_registry(self) -> StringSerializableRegistry:
+        """
+        Private copy of the default registry with --datetime and --disable-str-serializable-types applied,
+        so these options do not leak into other generations of the same process
+        """
+        str_types_registry = StringSerializableRegistry(*registry.types)
+        str_types_registry.replaces.update(registry.replaces)
+        if self.enable_datetime:
+            register_datetime_classes(str_types_registry)
         for name in self.disable_str_serializable_types:
-            registry.remove_by_name(name)
+            str_types_registry.remove_by_name(name)
+        return str_types_registry
 
     def run(self):
-        if self.enable_datetime:
-            register_datetime_classes()
-            # datetime classes are registered only now, so disabled ones have to be removed (again)
-            self._disable_str_serializable_types()
         generator = MetadataGenerator(
+            str_types_registry=self._str_types_registry(),
             dict_keys_regex=self.dict_keys_regex,
             dict_keys_fields=self.dict_keys_fields
         )
